@@ -362,6 +362,8 @@ fn build_evidence(
             "clock_reads_by_sut": s.clock_reads_by_sut,
             "getpid_calls_by_sut": s.getpid_calls_by_sut,
             "files_left_on_simulated_disk": s.fs_leftovers,
+            "epochs_with_private_tmp_mounts (mount namespace; /tmp, /var/tmp, /dev/shm inside the run's simulated disk)": s.epochs_private_fs,
+            "epochs_without_private_mounts (namespaces not permitted: TMPDIR/HOME redirection only)": s.epochs_shared_fs,
         },
         "distinct": {
             "run_histories": s.histories_all.len(),
